@@ -121,6 +121,10 @@ def reference(n, info, span_key, span_bases):
     return out, ambiguous or bool(same_kind_collision), bool(singles_extra)
 
 
+class DuplicateMember(Exception):
+    """a candidate cluster that holds the same protocluster more than once"""
+
+
 def run_config(nslots, circular, specs, order, bridging_gene=False):
     """-> dict(got=set of (kind, members), raw=list) ; members are indices into specs"""
     L = nslots * P.SLOT
@@ -132,7 +136,10 @@ def run_config(nslots, circular, specs, order, bridging_gene=False):
     ident = {id(p): i for i, p in enumerate(protos)}
     raw = []
     for cand in rec.get_candidate_clusters():
-        raw.append((str(cand.kind), frozenset(ident[id(p)] for p in cand.protoclusters), str(cand.location),
+        members = [ident[id(p)] for p in cand.protoclusters]
+        if len(members) != len(set(members)):
+            raise DuplicateMember(f"{cand.kind} candidate at {cand.location} lists protoclusters {members}")
+        raw.append((str(cand.kind), frozenset(members), str(cand.location),
                     (int(cand.location.start), int(cand.location.end))))
     return rec, protos, raw
 
@@ -147,6 +154,9 @@ def check_config(nslots, circular, specs, orders=None, stats=None, bridging_gene
     for order in orders:
         try:
             rec, protos, raw = run_config(nslots, circular, specs, order, bridging_gene)
+        except DuplicateMember as err:
+            fails.append(("candidate-lists-a-protocluster-twice", f"order={list(order)} {err}"))
+            return fails
         except Exception as err:  # pylint: disable=broad-except
             fails.append(("formation-raised", f"order={list(order)} {type(err).__name__}: {str(err)[:150]}"))
             return fails
@@ -236,6 +246,7 @@ def shards(tier):
     for circ in (False, True):
         for chunk in range(N_CHUNKS):
             out.append([8, circ, "hybrids5", chunk, tier])
+            out.append([8, circ, "hybrids7", chunk, tier])
     plans = [(6, False, 3), (6, True, 3)]
     if tier == "thorough":
         plans += [(6, False, 4), (6, True, 4), (7, True, 3)]
@@ -305,9 +316,43 @@ def two_hybrids_plus_one(nslots, circ):
                     yield pair1 + pair2 + [x]
 
 
+def three_hybrids_plus_one(nslots, circ):
+    """seven protoclusters: three chemical hybrid pairs with neighbourhoods of different size (so that one candidate can lie
+    inside the extent of another and candidates sorting later can end earlier) plus a single protocluster anywhere"""
+    L = nslots * P.SLOT
+    singles = [m for m in P.protocluster_menu(nslots, circ, max_core=1, products=("p",), neighbourhoods=((0, 0), (1, 1)))
+               if P.make_protocluster(L, circ, m) is not None]
+    evens = [s for s in range(0, nslots - 1, 2)]
+    sizes = ((0, 0), (1, 1), (3, 3))
+    for slots in itertools.combinations(evens, 3):
+        for nbhs in itertools.product(sizes, repeat=3):
+            pairs = []
+            for s, n in zip(slots, nbhs):
+                pairs += [[s, s, n[0], n[1], "p"], [s, s + 1, n[0], n[1], "q"]]
+            if any(P.make_protocluster(L, circ, m) is None for m in pairs):
+                continue
+            for x in singles:
+                if x not in pairs:
+                    yield pairs + [x]
+
+
 def run_two_hybrids(shard):
-    nslots, circ, _, chunk, tier = shard
+    nslots, circ, kind, chunk, tier = shard
     res = Result()
+    if kind == "hybrids7":
+        for index, specs in enumerate(three_hybrids_plus_one(nslots, circ)):
+            if index % N_CHUNKS != chunk:
+                continue
+            res.evals += 1
+            res.nontrivial += 1
+            fails = check_config(nslots, circ, specs, orders=[tuple(range(7)), tuple(range(6, -1, -1))], stats=res.buckets)
+            res.outcomes[("hybrids7", tuple(sorted(c.split(":")[0] for c, _ in fails)))] += 1
+            if fails or res.evals % 1009 == 1:
+                case = {"nslots": nslots, "circ": circ, "specs": specs}
+                for clause, detail in fails:
+                    res.fail(case, clause, detail)
+                res.sample(case)
+        return res
     for index, specs in enumerate(two_hybrids_plus_one(nslots, circ)):
         if index % N_CHUNKS != chunk:
             continue
@@ -326,7 +371,7 @@ def run_two_hybrids(shard):
 def run_shard(shard):
     if shard[2] == "coincide4":
         return run_coincide4(shard)
-    if shard[2] == "hybrids5":
+    if shard[2] in ("hybrids5", "hybrids7"):
         return run_two_hybrids(shard)
     nslots, circ, size, chunk, tier = shard
     res = Result()
